@@ -281,6 +281,7 @@ def correspond(ctx):
         c.mismatches.append({"kind": "traced-runs-missing", "runs": len(runs), "lines": len(lines)})
     statics = {x["line"]: x for x in tcases if x["k"] == "static"}
     expected = c15_projects.expected_horizons(ctx.seed)
+    fractions = c15_projects.expected_fractions(ctx.seed)
     items, meta = [], []
     for ln, st in sorted(statics.items()):
         days = [x for x in tcases if x["k"] == "gwday" and x["line"] == ln]
@@ -303,8 +304,9 @@ def correspond(ctx):
         hz = ["(%s%%char, %d%%Z, %s, %s, %d%%Z, (%s, %s, %s))" % (_tex(h["tex"]), h["ld"], fl(h["c"]), fl(h["stein"]), h["ukt"],
                                                                fl(h["fka"]), fl(h["wp"]), fl(h["gpv"])) for h in st["hz"]]
         sdef = ("Definition S : c15_static := {| cs_route := %d%%nat; cs_cappar := %s; cs_sand := %s; cs_n := %d%%nat; cs_gw := %s; cs_grw0 := %s;\n"
-                "  cs_hz := [%s];\n  cs_wb := %s; cs_wmb := %s; cs_pb := %s; cs_wnb := %s |}."
+                "  cs_hz := [%s];\n  cs_ptf := %d%%Z; cs_frac := [%s];\n  cs_wb := %s; cs_wmb := %s; cs_pb := %s; cs_wnb := %s |}."
                 % (route, waterlib.b(st["cappar"] == 1), waterlib.b(st["sand"]), st["n"], fl(st["gw"]), fl(st["initgrw"]), "; ".join(hz),
+                   st["ptf"], "; ".join("(%s, %s, %s)" % tuple(fl(float(v).hex()) for v in t) for t in (fractions.get(msid.group(1)) if msid else None) or []),
                    fls(st["wb"]), fls(st["wmb"]), fls(st["pb"]), fls(st["wnb"])))
         recs = ["(S, (%s, %s, %s, %s, %s, %s, %s))" % (waterlib.b(d["initial"]), fl(d["grw"]), fls(d["w"]), fls(d["wmin"]), fls(d["porges"]),
                                                         fls(d["wnor"]), fl(d["wred"])) for d in days]
